@@ -623,7 +623,10 @@ func c08ControlWriter(r *eng.Run) {
 		if client {
 			min = 7
 		}
-		bufLen = []int{min, min + 1, 16, 64, 127, 129, 131, 133, 135, 200, 4096}[r.T.Int(sim.LSize, 11)]
+		bufLen = []int{min, min + 1, 16, 64, 127, 129, 131, 133, 135, 200, 4096, 65535, 65536 + min, 65536 + min + 1, 65544, 70000, 1 << 17}[r.T.Int(sim.LSize, 17)]
+		if bufLen > 65535 {
+			r.Probe("control_writer_on_a_buffer_beyond_64k")
+		}
 		cw = wsutil.NewControlWriterBuffer(dst, st, ws.OpCode(op), make([]byte, bufLen))
 	}
 	n := 1 + r.T.Int(sim.LHist, 6)
